@@ -510,6 +510,10 @@ var c07ConcBodies = []c07ConcBody{
 	{Name: "attrquery-alice-host-a", Kind: "attrquery", AQ: aqP{}},
 	{Name: "attrquery-signed-bob-host-b", Kind: "attrquery", AQ: aqP{Sign: "env-sha256", Subject: "bob", Host: c07HostB}},
 	{Name: "metadata-host-b", Kind: "metadata"},
+	// multi-tenant storage: SP B is registered with ANOTHER certificate (and a signing requirement) in the tenant served as
+	// host b; each tenant's SP signs with the key registered there
+	{Name: "authn-B-signed-host-a", Kind: "authn-b", SSO: ssoP{}},
+	{Name: "authn-B-signed-with-its-tenant-b-key-host-b", Kind: "authn-b", SSO: ssoP{Host: c07HostB}},
 }
 
 // c07ConcBuild: request and expected subject for one body; the request is valid on the shared world of c07ConcWorld.
@@ -540,6 +544,14 @@ func c07ConcReq(b c07ConcBody, w *world.World) (*http.Request, string) {
 		}
 		return req, t.SubjectName
 	}
+	if b.Kind == "authn-b" {
+		host, k := "idp.example", world.SPB
+		if b.SSO.Host != "" {
+			host, k = b.SSO.Host, world.SPA // tenant b registered SP B with this certificate
+		}
+		doc := msg.Authn(msg.AuthnOpts{ID: "_req-b-" + host, Issuer: msg.SPB().EntityID, Destination: w.Cfg.SSOLocation(host)}).Render(xt.Style{})
+		return msg.Redirect{XML: doc, RelayState: "rs-b", SigAlg: verify.AlgRSASHA256, Key: k}.Request(host, w.Cfg.SSOPath()), ""
+	}
 	return world.NewRequest("GET", c07HostB, w.Cfg.MetadataPath(), nil, "", nil), ""
 }
 
@@ -550,6 +562,11 @@ func c07ConcWorld() *world.World {
 	}
 	w.Store.AddUser(aqUser(""))
 	w.Store.AddUser(&world.User{ID: "u-bob", Username: "bob", Email: "bob@example.com", FullName: "Bob Builder", Custom: []world.Custom{{Name: "role", Format: "urn:custom:fmt", Values: []string{"guest"}}}})
+	tb := msg.SPB()
+	tb.Certs, tb.AuthnRequestsSigned = []string{world.SPA.B64}, "true"
+	if err := w.Store.RegisterTenantSP(w.Cfg.Issuer(c07HostB), "app-b", tb.XML()); err != nil {
+		panic(err)
+	}
 	return w
 }
 
@@ -574,7 +591,7 @@ func c07ConcScenarios() []concScenario {
 						m := obs.Decode(rep)
 						ok := false
 						switch bs[t].Kind {
-						case "authn":
+						case "authn", "authn-b":
 							ok = rep.Panic == "" && rep.Status == 303 && world.CountCalls(rep.Calls, "CreateAuthRequest") == 1
 						case "logout":
 							ok = rep.Panic == "" && m.Root != nil && m.Root.Local == "LogoutResponse" && m.Success()
@@ -584,7 +601,7 @@ func c07ConcScenarios() []concScenario {
 							ok = rep.Panic == "" && rep.Status == 200
 						}
 						if !ok {
-							fs = append(fs, concFinding{Clause: "conformant-" + bs[t].Kind + "-request-not-accepted-while-another-request-is-in-flight", Thread: t, Detail: obs.Describe(rep, m) + " " + clip(rep.Body, 300)})
+							fs = append(fs, concFinding{Clause: "conformant-" + strings.TrimSuffix(bs[t].Kind, "-b") + "-request-not-accepted-while-another-request-is-in-flight", Thread: t, Detail: obs.Describe(rep, m) + " " + clip(rep.Body, 300)})
 						}
 					}
 					return fs
